@@ -16,16 +16,21 @@ Local Open Scope list_scope.
 Lemma consts_ok : MAX_SIGNUM = 128 /\ CHAN_SLOTS = 5.
 Proof. split; reflexivity. Qed.
 
-(** handler action = [FH] frame: store (F0) then wake (F1); wake_readers = pipe::wake(Send) =
+(** handler action = [FH] frame: store and wake in the order [action_store_first] says (the model
+    follows it; C09 needs store first); wake_readers = pipe::wake(Send) =
     one send(MSG_DONTWAIT) of one byte whose result is ignored. *)
-Lemma skel_action_ok : skel_action = ["self.exfiltrator.store()"; "wake_readers()"].
+Lemma skel_action_ok : skel_action =
+  if action_store_first then ["self.exfiltrator.store()"; "wake_readers()"] else ["wake_readers()"; "self.exfiltrator.store()"].
 Proof. reflexivity. Qed.
 Lemma skel_wake_readers_ok : skel_wake_readers = ["pipe::wake(fd,Send)"].
 Proof. reflexivity. Qed.
 Lemma skel_wake_ok : skel_wake = ["match method {"; "Write=>write(pipe,data,1)"; "Send=>send(pipe,data,1,MSG_NOWAIT)"; "}"].
 Proof. reflexivity. Qed.
-(** close = [FK] frame: store true (F0) then wake (F1); is_closed = one SeqCst load. *)
-Lemma skel_close_ok : skel_close = ["self.delivery_state.closed.store(SeqCst)"; "wake_readers()"].
+(** close = [FK] frame: store true and wake in the order [close_store_first] says (C11 needs store
+    first); is_closed = one SeqCst load. *)
+Lemma skel_close_ok : skel_close =
+  if close_store_first then ["self.delivery_state.closed.store(SeqCst)"; "wake_readers()"]
+  else ["wake_readers()"; "self.delivery_state.closed.store(SeqCst)"].
 Proof. reflexivity. Qed.
 Lemma skel_is_closed_ok : skel_is_closed = ["self.delivery_state.closed.load(SeqCst)"].
 Proof. reflexivity. Qed.
